@@ -1,14 +1,147 @@
 /-
-Driver op for C11 (chunking model):
+Driver ops for C11.
+
   chunk <cores> <npts>     -> ok <indices returned by chunkedMap id on [0..npts) >
-The per-point function is the identity on point indices (padding point = npts), so the reply lists which
-input point each output slot was computed from.
+      (chunking model: the per-point function is the identity on point indices (padding point = npts), so the reply lists which input
+      point each output slot was computed from)
+
+Glue of the field queries (`Model/FieldGlue.lean`), evaluated at ℚ with the FAKE point kernels `fake` below (the harness installs the
+same functions in place of the compiled `fuvw / fstrain`, or lets the compiled ones run and compares calls and arrangement only):
+
+  pfield <uvw|strain|stress> | <panel> | gridx=<int> gridy=<int> nl=0|1 Farg=0|1 | <c> | <xs> | <ys>
+  afield <uvw|strain|stress> | cores=<n> | <panel> ; <panel> ; … | group=<n> gridx=<int> gridy=<int> nl=0|1 | <c>
+  ainit <m>,<n> <m>,<n> …
+
+  <panel>  model=unset|invalid|plate|platew|cpanel|kpanel a=<q> b=<q> m=<n> n=<n> cores=<n> id=<n> F=0|1 group=<n> cs=<n|-> ce=<n|->
+           (`F=1`: `self.F = fakeF id`; `Farg=1`: the argument `F = fakeF (id + 100)`; `cs, ce`: `col_start, col_end`; an assembly
+           line runs `PanelAssembly.__init__` (`Assembly.new`) on the panels first when `init=1` is among the assembly options)
+  <c>      s <q> | v <q> <q> … | nd
+  <xs>     - | <d0> <d1> … : <q> <q> …            (shape before the colon — nothing for a 0-d array —, C-order elements after it)
+
+replies
+  pfield:  ok | <call> & … | <shape> ; <array> ; <array> ; … | <post>        (uvw: u v w phix phiy; strain: x y exx eyy gxy kxx kyy kxy;
+           err <PyExc> <tag> | <number of compiled calls made> | <post>        stress: x y Nxx Nyy Nxy Mxx Myy Mxy)
+           <call> = <fuvw|fstrain> <clt|cltW> <id> <cores> <nl> ; <c> ; <xs> ; <ys>
+           <post> = Xs <shape> : <data> ; Ys … ; u … ; v … ; w … ; phix … ; phiy …   (`-` for an attribute that is still `None`)
+  afield:  ok | <call> ; <shape> ; <x> ; <y> ; <array> ; … & <the same for the next panel of the group> & …
+           err <PyExc> <tag>
+  ainit:   <col_start>:<col_end> … | <get_size()>
 -/
 import CompmechVerif.Model.Chunking
+import CompmechVerif.Model.FieldGlue
 import CompmechVerif.Drv.Proto
 
 namespace Compmech.Drv.C11
-open Compmech.Proto Compmech.Chunking
+open Compmech.Proto Compmech.Chunking Compmech.FieldGlue
+
+/-! ### fake kernels (mirrored in tools/props/C11.py: `fake_uvw`, `fake_strain`, `fake_F`) -/
+
+/-- `Σ (i+1) c_i`: identifies the slice including its order -/
+def hsum : Nat → List ℚ → ℚ
+  | _, [] => 0
+  | i, x :: t => ((i + 1 : Nat) : ℚ) * x + hsum (i + 1) t
+
+def fake : Kernels ℚ Nat :=
+  { uvw := fun fm p c pt =>
+      ⟨pt.1 + (p.rest : ℚ), 2 * pt.2 + (match fm with | .cltW => 1 / 2 | .clt => 0), hsum 0 c, (c.length : ℚ), pt.1 - 3 * pt.2⟩
+    strain := fun p c flag pt => ⟨pt.1 + (p.rest : ℚ), pt.2, hsum 0 c, (flag : ℚ), (c.length : ℚ), pt.1 - 3 * pt.2⟩ }
+
+def fakeF (id : Nat) : Fin 6 → Fin 6 → ℚ := fun r q => ((id + 1 : Nat) : ℚ) + 2 * (r.val : ℚ) + (q.val : ℚ) / 4
+
+/-! ### parsing -/
+
+def kvs (s : String) : List (String × String) :=
+  (words s).filterMap fun w => match w.splitOn "=" with
+    | [k, v] => some (k, v)
+    | _ => none
+
+def look (kv : List (String × String)) (k : String) : Option String := (kv.find? fun e => e.1 == k).map (·.2)
+def gQ (kv : List (String × String)) (k : String) : Option ℚ := (look kv k).bind parseQ?
+def gN (kv : List (String × String)) (k : String) : Option Nat := (look kv k).bind String.toNat?
+def gI (kv : List (String × String)) (k : String) : Option Int := (look kv k).bind String.toInt?
+def gB (kv : List (String × String)) (k : String) : Option Bool :=
+  (look kv k).bind fun s => if s = "1" then some true else if s = "0" then some false else none
+def gON (kv : List (String × String)) (k : String) : Option (Option Nat) :=
+  (look kv k).bind fun s => if s = "-" then some none else s.toNat?.map some
+
+def model? : String → Option PanelGlue.ModelAttr
+  | "unset" => some .unset
+  | "invalid" => some .invalid
+  | "plate" => some (.kind .plate)
+  | "platew" => some (.kind .plateW)
+  | "cpanel" => some (.kind .cpanel)
+  | "kpanel" => some (.kind .kpanel)
+  | _ => none
+
+def panel? (s : String) : Option (Panel ℚ Nat Nat) := do
+  let kv := kvs s
+  let id ← gN kv "id"
+  let hasF ← gB kv "F"
+  let d : PanelDef ℚ Nat := {
+    model := ← (look kv "model").bind model?, a := ← gQ kv "a", b := ← gQ kv "b", m := ← gN kv "m", n := ← gN kv "n",
+    F := if hasF then some (fakeF id) else none, outNumCores := ← gN kv "cores", rest := id }
+  pure { d := d, group := ← gN kv "group", colStart := ← gON kv "cs", colEnd := ← gON kv "ce" }
+
+def carg? (s : String) : Option (CArg ℚ) :=
+  match words s with
+  | ["nd"] => some .nd
+  | ["s", x] => (parseQ? x).map .scalar
+  | "v" :: xs => (xs.mapM parseQ?).map .vec
+  | _ => none
+
+def arr? (s : String) : Option (Option (Arr ℚ)) :=
+  if s.trimAscii.toString = "-" then some none else
+  match s.splitOn ":" with
+  | [sh, da] =>
+    match (words sh).mapM String.toNat?, parseQs? da with
+    | some shape, some data => some (some ⟨shape, data⟩)
+    | _, _ => none
+  | _ => none
+
+/-! ### printing -/
+
+def showShape (l : List Nat) : String := " ".intercalate (l.map toString)
+def showArr (A : Arr ℚ) : String := showShape A.shape ++ " : " ++ showQs A.data
+def showOArr : Option (Arr ℚ) → String
+  | none => "-"
+  | some A => showArr A
+
+def showFm : FieldModule → String
+  | .clt => "clt"
+  | .cltW => "cltW"
+
+def showCall (c : KCall ℚ Nat) : String :=
+  (if c.isStrain then "fstrain " else "fuvw ") ++ showFm c.fm ++ s!" {c.p.rest} {c.cores} {c.nl} ; " ++ showQs c.c ++ " ; " ++
+    showQs (c.pts.map Prod.fst) ++ " ; " ++ showQs (c.pts.map Prod.snd)
+
+def errTag : Err → String
+  | .gridNegative => "gridNegative" | .shapeMismatch => "shapeMismatch" | .modelKey => "modelKey" | .noFstrain => "noFstrain"
+  | .cNdim => "cNdim" | .cScalarIndex => "cScalarIndex" | .noLaminate => "noLaminate"
+
+def showPost (P : Panel ℚ Nat Nat) : String :=
+  " ; ".intercalate [ "Xs " ++ showOArr P.out.Xs, "Ys " ++ showOArr P.out.Ys, "u " ++ showOArr P.out.u, "v " ++ showOArr P.out.v,
+    "w " ++ showOArr P.out.w, "phix " ++ showOArr P.out.phix, "phiy " ++ showOArr P.out.phiy ]
+
+def uvwCols (r : Arr (Uvw5 ℚ)) : List (List ℚ) :=
+  [r.data.map (·.u), r.data.map (·.v), r.data.map (·.w), r.data.map (·.phix), r.data.map (·.phiy)]
+def strainCols (r : Arr (Strain6 ℚ)) : List (List ℚ) :=
+  [r.data.map (·.exx), r.data.map (·.eyy), r.data.map (·.gxy), r.data.map (·.kxx), r.data.map (·.kyy), r.data.map (·.kxy)]
+def stressCols (r : Arr (Res6 ℚ)) : List (List ℚ) :=
+  [r.data.map (·.Nxx), r.data.map (·.Nyy), r.data.map (·.Nxy), r.data.map (·.Mxx), r.data.map (·.Myy), r.data.map (·.Mxy)]
+
+def showCols (shape : List Nat) (cols : List (List ℚ)) : String :=
+  " ; ".intercalate (showShape shape :: cols.map showQs)
+
+def showOutcome {α : Type} (o : Outcome ℚ Nat Nat α) (render : α → String) : String :=
+  match o.res with
+  | .error e => "err " ++ e.pyType ++ " " ++ errTag e ++ s!" | {o.calls.length} | " ++ showPost o.post
+  | .ok r => "ok | " ++ " & ".intercalate (o.calls.map showCall) ++ " | " ++ render r ++ " | " ++ showPost o.post
+
+def showAsm {V : Type} (r : Except Err (List (PanelField ℚ Nat V))) (cols : Arr V → List (List ℚ)) : String :=
+  match r with
+  | .error e => "err " ++ e.pyType ++ " " ++ errTag e
+  | .ok l => "ok | " ++ " & ".intercalate (l.map fun e =>
+      showCall e.call ++ " ; " ++ showCols e.vals.shape ([e.x.data, e.y.data] ++ cols e.vals))
 
 def handle (op : String) (rest : String) : String :=
   match op with
@@ -21,6 +154,46 @@ def handle (op : String) (rest : String) : String :=
         else "ok " ++ " ".intercalate ((chunkedMap id npts (List.range npts) cores).map toString)
       | _, _ => "err parse"
     | _ => "err parse"
+  | "pfield" =>
+    match fields rest with
+    | [meth, ps, as, cs, xs, ys] =>
+      let kv := kvs as
+      match panel? ps, gI kv "gridx", gI kv "gridy", gB kv "nl", gB kv "Farg", carg? cs, arr? xs, arr? ys with
+      | some P, some gx, some gy, some nl, some farg, some c, some X, some Y =>
+        match meth with
+        | "uvw" => showOutcome (P.uvw fake c X Y gx gy) fun r => showCols r.shape (uvwCols r)
+        | "strain" => showOutcome (P.strain fake c X Y gx gy nl) fun r => showCols r.e.shape ([r.x.data, r.y.data] ++ strainCols r.e)
+        | "stress" =>
+          showOutcome (P.stress fake c (if farg then some (fakeF (P.d.rest + 100)) else none) X Y gx gy nl)
+            fun r => showCols r.N.shape ([r.x.data, r.y.data] ++ stressCols r.N)
+        | _ => "err unknown-method"
+      | _, _, _, _, _, _, _, _ => "err parse"
+    | _ => "err parse"
+  | "afield" =>
+    match fields rest with
+    | [meth, aopts, ps, as, cs] =>
+      let kv := kvs as
+      let akv := kvs aopts
+      match (ps.splitOn ";").mapM panel?, gN akv "cores", gB akv "init", gN kv "group", gI kv "gridx", gI kv "gridy", gB kv "nl", carg? cs with
+      | some panels, some cores, some init, some g, some gx, some gy, some nl, some c =>
+        let A : Assembly ℚ Nat Nat := if init then { Assembly.new panels with outNumCores := cores } else ⟨panels, cores, none⟩
+        match meth with
+        | "uvw" => showAsm (A.uvw fake c g gx gy) uvwCols
+        | "strain" => showAsm (A.strain fake c g gx gy nl) strainCols
+        | "stress" => showAsm (A.stress fake c g gx gy nl) stressCols
+        | _ => "err unknown-method"
+      | _, _, _, _, _, _, _, _ => "err parse"
+    | _ => "err parse"
+  | "ainit" =>
+    let mns := (words rest).filterMap fun w => match w.splitOn "," with
+      | [m, n] => match m.toNat?, n.toNat? with
+        | some m, some n => some (m, n)
+        | _, _ => none
+      | _ => none
+    let A : Assembly ℚ Nat Nat :=
+      Assembly.new (mns.map fun mn => { d := ⟨.unset, 0, 0, mn.1, mn.2, none, 1, 0⟩, group := 0 })
+    let show1 : Option Nat → String := fun o => match o with | some x => toString x | none => "-"
+    " ".intercalate (A.panels.map fun p => show1 p.colStart ++ ":" ++ show1 p.colEnd) ++ s!" | {A.getSize.1}"
   | _ => "err unknown-op"
 
 end Compmech.Drv.C11
